@@ -164,7 +164,7 @@ func TestC04Known(t *testing.T) {
 
 func TestC04Exhaustive(t *testing.T) {
 	col := coll("C04", "exhaustive")
-	maxN := pick(4, 5)
+	maxN := pick(4, 6)
 	names := c04Names("md")
 	col.Rule = fmt.Sprintf("all forest shapes <=%d nodes x every node position holding each of %d hostile names (others 'a'/'b') x {json,yaml,toml(single root)} x {md, noiter, root}", maxN, len(dedup(names)))
 	names = dedup(names)
